@@ -24,6 +24,11 @@ package lucene
 // The inputs are token sequences (every token type, every literal kind) and raw
 // character strings (so that lexical errors - unterminated quotes, stray bytes,
 // invalid UTF-8 - are part of the domain: the statement quantifies over all strings).
+//
+// Interface: /verif/harness/README.md (VERIF_TIER, VERIF_SEED, VERIF_REPORT).  Extra knobs,
+// not needed for normal runs: VERIF_INPUT=<input, Go-quoted or verbatim> replays the check
+// on that single input; VERIF_C10_LEN / VERIF_C10_RLEN / VERIF_C10_XLEN / VERIF_C10_CLEN / VERIF_C10_RCLEN / VERIF_C10_RANDOM override the bounds.
+// The test also runs a self-test of its own oracle on hand-built trees first.
 
 import (
 	"encoding/json"
